@@ -2,6 +2,7 @@ package logmodel
 
 import (
 	"context"
+	"fmt"
 	"log/slog"
 	"runtime"
 	"strings"
@@ -43,15 +44,41 @@ func here(skip int) (string, int) {
 	return lastTwo(file), line
 }
 
-const NumForms = 8
+const NumForms = 10
+
+var doneCtx = func() context.Context {
+	ctx, cancel := context.WithCancel(context.Background())
+	cancel()
+	return ctx
+}()
+
+// CtxFor picks the context handed to the logging call: for a third of the records one that is already cancelled. A
+// record is written whatever the state of the caller's context (a request handler logging "client went away" does so
+// with a done context); the choice is a pure function of the record so that every path logs it the same way.
+func CtxFor(form int, msg string) context.Context {
+	if (len(msg)+form)%3 == 0 {
+		return doneCtx
+	}
+	return context.Background()
+}
 
 // FormTakesAttrs reports whether the entry point of this form accepts attributes (the printf-style ones do not).
-func FormTakesAttrs(form int) bool { f := form % NumForms; return f < 4 || f >= 6 }
+func FormTakesAttrs(form int) bool { f := form % NumForms; return f < 4 || f == 6 || f == 7 }
+
+// FormMessage is the message the record must carry when msg is handed to the entry point of this form: forms 8 and 9
+// pass it as the format string itself, without arguments (logger.Infof("server started")), so fmt's reading of a bare
+// format applies (%% becomes %, a lone verb becomes %!v(MISSING)).
+func FormMessage(form int, msg string) string {
+	if f := form % NumForms; f == 8 || f == 9 {
+		return fmt.Sprintf(msg)
+	}
+	return msg
+}
 
 // Emit logs one record through one of the Logger's entry points and returns the source position
 // (last two path elements of the file, line) of the logging call.
 func Emit(l *logger.Logger, form int, level slog.Level, msg string, nodes []Node) (file string, line int) {
-	ctx := context.Background()
+	ctx := CtxFor(form, msg)
 	switch form % NumForms {
 	case 0:
 		args := Args(nodes, false)
@@ -71,6 +98,34 @@ func Emit(l *logger.Logger, form int, level slog.Level, msg string, nodes []Node
 	case 6, 7:
 		// a call site with an awkward recorded file name (see emit_line.go); which one depends on the message
 		return emitOddSource(l, len(msg)+len(nodes)+form, level, msg, Attrs(nodes))
+	case 8:
+		// printf-style entry point with the message as the format and no arguments at all
+		file, line = here(1)
+		l.Logf(ctx, level, msg)
+		return file, line + 1
+	case 9:
+		switch level {
+		case logger.LevelDebug:
+			file, line = here(1)
+			l.Debugf(msg)
+			return file, line + 1
+		case logger.LevelInfo:
+			file, line = here(1)
+			l.Infof(msg)
+			return file, line + 1
+		case logger.LevelWarn:
+			file, line = here(1)
+			l.Warnf(msg)
+			return file, line + 1
+		case logger.LevelError:
+			file, line = here(1)
+			l.Errorf(msg)
+			return file, line + 1
+		default:
+			file, line = here(1)
+			l.Logf(ctx, level, msg)
+			return file, line + 1
+		}
 	case 4:
 		// printf-style entry point: the message goes through a %s verb, attributes cannot be passed
 		file, line = here(1)
